@@ -87,11 +87,18 @@ class SymMk:
         self.decls.append(("times", name, a))
         return a
 
-    def times_ns(self, name, n, min_step_ns=10**9):
-        """datetime64[ns] axis with nanosecond resolution, consecutive steps >= min_step_ns"""
+    def times_ns(self, name, n, min_step_ns=10**9, nat=False):
+        """datetime64[ns] axis with nanosecond resolution, consecutive steps >= min_step_ns; nat: stamps may be
+        missing (NaT)"""
         fs = z3.Function(name + "_ns", z3.IntSort(), z3.IntSort())
         self.ctx.index_funcs.append(fs)
-        a = Arr(n, "M", lambda i: (False, fs(alg.lift(i))), "ns", name)
+        if nat:
+            fn = z3.Function(name + "_nat", z3.IntSort(), z3.BoolSort())
+            self.ctx.index_funcs.append(fn)
+            a = Arr(n, "M", lambda i: (fn(alg.lift(i)), fs(alg.lift(i))), "ns", name)
+            a.fnat = fn
+        else:
+            a = Arr(n, "M", lambda i: (False, fs(alg.lift(i))), "ns", name)
         a.is_input = True
         a.fns = fs
         if min_step_ns is not None:
@@ -181,10 +188,12 @@ class ConcMk:
         a.secs = list(secs)
         return a
 
-    def times_ns(self, name, n, min_step_ns=10**9):
-        ns = [int(v) for v in self.values[name]]
+    def times_ns(self, name, n, min_step_ns=10**9, nat=False):
+        ns = [None if v is None else int(v) for v in self.values[name]]
         assert len(ns) == n
-        if min_step_ns is not None and any(b - a < min_step_ns for a, b in zip(ns, ns[1:])):
+        if not nat and any(v is None for v in ns):
+            self.ok = False
+        if min_step_ns is not None and any(a is not None and b is not None and b - a < min_step_ns for a, b in zip(ns, ns[1:])):
             self.ok = False
         a = from_values(ns, "M", "ns")
         a.is_input = True
@@ -263,10 +272,10 @@ class RealMk:
 
         return np.array([int(s) * 10**9 for s in self.values[name]], dtype="datetime64[ns]")
 
-    def times_ns(self, name, n, min_step_ns=10**9):
+    def times_ns(self, name, n, min_step_ns=10**9, nat=False):
         import numpy as np
 
-        return np.array([int(v) for v in self.values[name]], dtype="datetime64[ns]")
+        return np.array(["NaT" if v is None else int(v) for v in self.values[name]], dtype="datetime64[ns]")
 
     def intseries(self, name, n):
         import numpy as np
@@ -541,7 +550,8 @@ def _extract_model(model, mk, bound_n=None):
             vals[name] = [ev(obj.fsec(z3.IntVal(i))) for i in range(n)]
         elif kind == "times_ns":
             n = ev(obj.n)
-            vals[name] = [ev(obj.fns(z3.IntVal(i))) for i in range(n)]
+            fnat = getattr(obj, "__dict__", {}).get("fnat")
+            vals[name] = [None if (fnat is not None and ev(fnat(z3.IntVal(i)))) else ev(obj.fns(z3.IntVal(i))) for i in range(n)]
         elif kind == "intseries":
             n = ev(obj.n)
             vals[name] = [ev(obj.fv(z3.IntVal(i))) for i in range(n)]
